@@ -18,7 +18,7 @@ def key_fn(case, obs, verdict):
     if f[0] == "grpc":
         return "engine-grpc:" + what
     if f[0] == "gcall":
-        return "engine-grpc-call:" + what
+        return ("engine-grpc-scenario-call:" if f[1] == "s" else "engine-grpc-call:") + what
     if f[0] == "gscn":
         return "engine-grpc-scenario:" + what
     if f[0] == "eng":
